@@ -576,9 +576,16 @@ uchar *StringDictionaryHTFC::getHeader(size_t idbucket) {
 
 ChunkScan StringDictionaryHTFC::decodeHeader(size_t idbucket) {
   uchar *ptr = textStrings + blStrings->getField(idbucket);
-  ChunkScan chunk = {
-      0, 0, ptr, maxcomplength, new uchar[4 * maxlength + table->getK()],
-      0, 0, 1};
+  // Never more bytes than the text holds from this header on
+  uint available = (uint)(bytesStrings - blStrings->getField(idbucket));
+  ChunkScan chunk = {0,
+                     0,
+                     ptr,
+                     (maxcomplength < available) ? maxcomplength : available,
+                     new uchar[4 * maxlength + table->getK()],
+                     0,
+                     0,
+                     1};
 
   // Variables used for adjusting purposes
   uint plen = 0;
@@ -618,7 +625,7 @@ bool StringDictionaryHTFC::locateBucket(uchar *str, uint strLen,
     center = (left + right) / 2;
     header = getHeader(center);
 
-    cmp = memcmp(header, str, strLen);
+    cmp = compareHeader(header, textStrings + bytesStrings, str, strLen);
 
     // The string is in any preceding bucket
     if (cmp > 0)
@@ -656,7 +663,8 @@ void StringDictionaryHTFC::locateBoundaryBuckets(uchar *str, uint strLen,
   while (*left <= *right) {
     center = (*left + *right) / 2;
 
-    memcpy(header, getHeader(center), strLen);
+    copyHeader(header, getHeader(center), textStrings + bytesStrings,
+               strLen);
     if (offset != 0)
       header[strLen - 1] = header[strLen - 1] & cmask;
     cmp = memcmp(header, str, strLen);
@@ -690,7 +698,8 @@ void StringDictionaryHTFC::locateBoundaryBuckets(uchar *str, uint strLen,
     while (ll <= lr) {
       lc = (ll + lr) / 2;
 
-      memcpy(header, getHeader(lc), strLen);
+      copyHeader(header, getHeader(lc), textStrings + bytesStrings,
+                 strLen);
       if (offset != 0)
         header[strLen - 1] = header[strLen - 1] & cmask;
       cmp = memcmp(header, str, strLen);
@@ -714,7 +723,8 @@ void StringDictionaryHTFC::locateBoundaryBuckets(uchar *str, uint strLen,
     while (rl < (rr - 1)) {
       rc = (rl + rr) / 2;
 
-      memcpy(header, getHeader(rc), strLen);
+      copyHeader(header, getHeader(rc), textStrings + bytesStrings,
+                 strLen);
       if (offset != 0)
         header[strLen - 1] = header[strLen - 1] & cmask;
       cmp = memcmp(header, str, strLen);
